@@ -29,7 +29,9 @@ def stage(rnd, pos, n):
 
 
 REDIRS = ["> f1", ">> f1", "2> f2", "2>> f2", "2>&1", "1>&2", "> f1 2>&1", "2>&1 > f1", "> /nonexistent/x", ">&2",
-          "1> f3 2> f3"]
+          "1> f3 2> f3",
+          # the same stream redirected twice in one command (file then file, file then descriptor, descriptor then file)
+          "> f1 > f3", "> f1 1>&2", ">> f1 >&2", "2> f2 2>&1", "2> f2 2> f3", "1>&2 > f1", "2>&1 2>> f2"]
 
 
 def gen_command(rnd):
